@@ -271,8 +271,6 @@ def toyDecode : Str → Option (Str × Nat)
   | c :: d :: t => if c == '{' && d == '"' then (toyBody t).map (fun r => (r.1, r.2 + 2)) else none
   | _ => none
 
-def toySpace (c : Char) : Bool := c == ' ' || c == '\n' || c == '\t' || c == '\r'
-
 theorem toyBody_complete : ∀ (s rest : Str),
     toyBody (toyEsc s ++ ('"' :: '}' :: rest)) = some (s, (toyEsc s).length + 2) := by
   intro s
@@ -337,7 +335,7 @@ theorem toyBody_prefix : ∀ (s : Str) (k : Nat), k < (toyEsc s).length + 2 →
           unfold toyBody
           simp [h1, h2, ih k (by omega)]
 
-theorem toy_decoderSpec' : DecoderSpec toySpace toyEnc toyDecode where
+theorem toy_decoderSpec' : DecoderSpec pySpace toyEnc toyDecode where
   complete := by
     intro v rest
     simp [toyEnc, toyDecode, toyBody_complete]
